@@ -7,6 +7,8 @@ package triex
 
 import (
 	"fmt"
+	"os"
+	"runtime"
 	"sort"
 	"strings"
 	"sync"
@@ -177,22 +179,22 @@ type Bounds struct {
 
 func TierBounds(thorough bool) Bounds {
 	if thorough {
-		return Bounds{ABPatLen: 4, ABSet: 3, ABText: 10, ABKey: 4,
-			AB4Set: 4, AB4PatLen: 3, AB4Text: 9,
-			ABCPatLen: 3, ABCSet: 3, ABCText: 7, ABCKey: 3,
+		return Bounds{ABPatLen: 4, ABSet: 3, ABText: 12, ABKey: 4,
+			AB4Set: 4, AB4PatLen: 3, AB4Text: 10,
+			ABCPatLen: 3, ABCSet: 3, ABCText: 8, ABCKey: 3,
 			CoverN: 8, CoverShort: 4,
 			WideK: 6, WideRemoved: 2,
 			WPatLen: 3, WSet: 2, WText: 5, WKey: 3,
 			W3PatLen: 2, W3Text: 5, W3Key: 3,
 			BText: 5}
 	}
-	return Bounds{ABPatLen: 3, ABSet: 3, ABText: 8, ABKey: 3,
-		AB4Set: 4, AB4PatLen: 2, AB4Text: 7,
-		ABCPatLen: 3, ABCSet: 3, ABCText: 5, ABCKey: 3,
+	return Bounds{ABPatLen: 3, ABSet: 3, ABText: 10, ABKey: 3,
+		AB4Set: 4, AB4PatLen: 3, AB4Text: 8,
+		ABCPatLen: 3, ABCSet: 3, ABCText: 6, ABCKey: 3,
 		CoverN: 7, CoverShort: 3,
 		WideK: 5, WideRemoved: 1,
 		WPatLen: 3, WSet: 2, WText: 4, WKey: 3,
-		W3PatLen: 2, W3Text: 3, W3Key: 2,
+		W3PatLen: 2, W3Text: 4, W3Key: 2,
 		BText: 4}
 }
 
@@ -496,11 +498,11 @@ func Try(f func()) (panicked bool) {
 // PanicInfo re-runs a call that panicked under common.Catch and returns the golib site and the
 // golib part of the stack.
 func PanicInfo(f func()) (site, stack string) {
-	_, st, p := common.Catch(f)
+	val, st, p := common.Catch(f)
 	if !p {
 		return "? (panic not reproduced on re-run)", ""
 	}
-	var keep []string
+	keep := []string{fmt.Sprintf("panic: %v", val)}
 	lines := strings.Split(st, "\n")
 	for i := 0; i < len(lines); i++ {
 		if strings.HasPrefix(lines[i], "github.com/welllog/golib/") || strings.HasPrefix(lines[i], "panic(") {
@@ -510,7 +512,7 @@ func PanicInfo(f func()) (site, stack string) {
 			}
 		}
 	}
-	return common.PanicSite(st), strings.Join(keep, "\n")
+	return fmt.Sprintf("%s (%v)", common.PanicSite(st), val), strings.Join(keep, "\n")
 }
 
 // ---------------------------------------------------------------- collector
@@ -600,12 +602,97 @@ func (c *Collector) Flush(r *common.Run) {
 
 // Shard is the worker-local state handed to the visit function.
 type Shard struct {
+	vis    atomic.Pointer[Visit]  // watchdog: the trie being queried
+	cur    atomic.Pointer[string] // watchdog: the text / key being queried (nil while building)
 	Col    *Collector
 	Ev, Nt int64
 	Extra  [4]int64 // check-specific counters
 	Counts []int
 	Cov    []bool
 	Regs   []Region
+}
+
+// At publishes the input about to be queried (address of an element of Fam.Texts / Fam.Keys).
+func (sh *Shard) At(in *string) { sh.cur.Store(in) }
+
+// ---------------------------------------------------------------- watchdog
+//
+// A defect that makes a query loop forever (e.g. a cyclic failure chain) cannot be caught by
+// recover. The watchdog turns "one (trie, input) has been in progress for StallLimit" or "the heap
+// passed HeapLimit" (find() appending matches forever) into a reported violation and a clean exit
+// instead of a hang or an OOM kill. A trie normally stays < 0.1 s in a shard, so the limit is
+// three orders of magnitude away from any verdict on terminating code.
+
+func init() {
+	if s, err := time.ParseDuration(os.Getenv("VERIF_TRIE_STALL")); err == nil && s > 0 {
+		StallLimit = s // only used to test the watchdog itself
+	}
+}
+
+var (
+	StallLimit        = 120 * time.Second
+	HeapLimit  uint64 = 8 << 30
+	watch      struct {
+		mu     sync.Mutex
+		active map[*Shard]*watchState
+	}
+)
+
+type watchState struct {
+	v     *Visit
+	in    *string
+	since time.Time
+}
+
+func register(sh *Shard) {
+	watch.mu.Lock()
+	if watch.active == nil {
+		watch.active = map[*Shard]*watchState{}
+	}
+	watch.active[sh] = &watchState{since: time.Now()}
+	watch.mu.Unlock()
+}
+
+func unregister(sh *Shard) {
+	watch.mu.Lock()
+	delete(watch.active, sh)
+	watch.mu.Unlock()
+}
+
+// Watch starts the watchdog. abort receives the stuck case; it must report it and end the run
+// (Flush + Finish) — it does not return.
+func Watch(abort func(reason string, v *Visit, input *string)) {
+	go func() {
+		for tick := 0; ; tick++ {
+			time.Sleep(time.Second)
+			now := time.Now()
+			var oldest *watchState
+			watch.mu.Lock()
+			for sh, st := range watch.active {
+				v, in := sh.vis.Load(), sh.cur.Load()
+				if v != st.v || in != st.in {
+					st.v, st.in, st.since = v, in, now
+				}
+				if st.v != nil && (oldest == nil || st.since.Before(oldest.since)) {
+					oldest = st
+				}
+			}
+			watch.mu.Unlock()
+			if oldest == nil {
+				continue
+			}
+			if now.Sub(oldest.since) > StallLimit {
+				abort(fmt.Sprintf("did not return within %v", StallLimit), oldest.v, oldest.in)
+			}
+			if tick%2 == 1 {
+				var ms runtime.MemStats
+				runtime.ReadMemStats(&ms)
+				if ms.HeapAlloc > HeapLimit && now.Sub(oldest.since) > 2*time.Second {
+					abort(fmt.Sprintf("heap grew beyond %d MiB while the call was in progress (runaway allocation)", HeapLimit>>20), oldest.v, oldest.in)
+				}
+			}
+		}
+	}()
 }
 
 // Visit is one (pattern set, history) with its built trie.
@@ -654,6 +741,8 @@ func (f *Family) Run(r *common.Run, famIdx int, global *Collector, tot *Totals, 
 		sh := &Shard{Col: NewCollector(), Counts: make([]int, 64), Cov: make([]bool, 256), Regs: make([]Region, 0, 16)}
 		sh.Col.fam, sh.Col.chunk = famIdx, i
 		cols[i] = sh.Col
+		register(sh)
+		defer unregister(sh)
 		var nb int64
 		for si := i * chunk; si < len(f.Sets) && si < (i+1)*chunk; si++ {
 			if r.Expired() {
@@ -673,6 +762,8 @@ func (f *Family) Run(r *common.Run, famIdx int, global *Collector, tot *Totals, 
 					ins = append(append([]string(nil), set...), set[0])
 				}
 				v := &Visit{Fam: f, FamIdx: famIdx, Set: set, Hist: h, Oracle: NewOracle(ins)}
+				sh.cur.Store(nil)
+				sh.vis.Store(v)
 				p := Try(func() { v.Trie = Build(set, h) })
 				nb++
 				if p {
